@@ -117,6 +117,16 @@ type FnLocks struct {
 	Entry  LockSet
 	Exit   []exitLocks // lock sets at Return/Panic (after deferred unlocks)
 	Unknow []ssa.CallInstruction
+	// RunMust/RunMay: lock sets in force when a deferred (non-lock) call actually runs, i.e. after
+	// the deferred calls registered later have run (LIFO) and before those registered earlier.
+	RunMust map[*ssa.Defer]LockSet
+	RunMay  map[*ssa.Defer]LockSet
+}
+
+type defEntry struct {
+	op     lockOp
+	isLock bool
+	at     *ssa.Defer
 }
 
 type exitLocks struct {
@@ -126,13 +136,14 @@ type exitLocks struct {
 }
 
 func analyseLocks(fn *ssa.Function, entry LockSet) *FnLocks {
-	res := &FnLocks{Fn: fn, Must: map[ssa.Instruction]LockSet{}, May: map[ssa.Instruction]LockSet{}, Entry: entry}
+	res := &FnLocks{Fn: fn, Must: map[ssa.Instruction]LockSet{}, May: map[ssa.Instruction]LockSet{}, Entry: entry,
+		RunMust: map[*ssa.Defer]LockSet{}, RunMay: map[*ssa.Defer]LockSet{}}
 	if len(fn.Blocks) == 0 {
 		return res
 	}
 	type state struct {
 		must, may LockSet
-		deferred  []lockOp // deferred unlocks registered so far (path-insensitive union)
+		deferred  []defEntry // deferred calls registered so far (path-insensitive union, in order)
 		ok        bool
 	}
 	in := make([]state, len(fn.Blocks))
@@ -163,7 +174,7 @@ func analyseLocks(fn *ssa.Function, entry LockSet) *FnLocks {
 		work = work[1:]
 		inWork[bi] = false
 		b := fn.Blocks[bi]
-		st := state{must: in[bi].must.clone(), may: in[bi].may.clone(), deferred: append([]lockOp(nil), in[bi].deferred...), ok: true}
+		st := state{must: in[bi].must.clone(), may: in[bi].may.clone(), deferred: append([]defEntry(nil), in[bi].deferred...), ok: true}
 		for _, ins := range b.Instrs {
 			res.Must[ins] = st.must.clone()
 			res.May[ins] = st.may.clone()
@@ -177,13 +188,36 @@ func analyseLocks(fn *ssa.Function, entry LockSet) *FnLocks {
 					apply(st.may, op, false)
 				}
 			case *ssa.Defer:
-				if op, ok := asLockOp(x); ok && !op.Acquire {
-					st.deferred = append(st.deferred, op)
+				if op, ok := asLockOp(x); ok {
+					if !op.Acquire {
+						st.deferred = append(st.deferred, defEntry{op: op, isLock: true, at: x})
+					}
+				} else {
+					st.deferred = append(st.deferred, defEntry{at: x})
 				}
 			case *ssa.RunDefers:
 				for i := len(st.deferred) - 1; i >= 0; i-- {
-					apply(st.must, st.deferred[i], true)
-					apply(st.may, st.deferred[i], false)
+					d := st.deferred[i]
+					if d.isLock {
+						apply(st.must, d.op, true)
+						apply(st.may, d.op, false)
+						continue
+					}
+					// union/intersection over the RunDefers sites that can run this call
+					if prev, ok := res.RunMay[d.at]; ok {
+						for k, h := range st.may {
+							prev[k] = h
+						}
+						m := res.RunMust[d.at]
+						for k := range m {
+							if _, ok := st.must[k]; !ok {
+								delete(m, k)
+							}
+						}
+					} else {
+						res.RunMay[d.at] = st.may.clone()
+						res.RunMust[d.at] = st.must.clone()
+					}
 				}
 			case *ssa.Return:
 				res.Exit = append(res.Exit, exitLocks{At: x, Must: st.must.clone(), May: st.may.clone()})
@@ -196,7 +230,7 @@ func analyseLocks(fn *ssa.Function, entry LockSet) *FnLocks {
 			si := s.Index
 			var n state
 			if !in[si].ok {
-				n = state{must: st.must.clone(), may: st.may.clone(), deferred: append([]lockOp(nil), st.deferred...), ok: true}
+				n = state{must: st.must.clone(), may: st.may.clone(), deferred: append([]defEntry(nil), st.deferred...), ok: true}
 			} else {
 				n = state{must: LockSet{}, may: in[si].may.clone(), ok: true}
 				for k, h := range in[si].must {
@@ -212,7 +246,7 @@ func analyseLocks(fn *ssa.Function, entry LockSet) *FnLocks {
 						n.may[k] = h
 					}
 				}
-				n.deferred = append([]lockOp(nil), in[si].deferred...)
+				n.deferred = append([]defEntry(nil), in[si].deferred...)
 				for _, d := range st.deferred {
 					found := false
 					for _, e := range n.deferred {
@@ -257,7 +291,11 @@ type LockInfo struct {
 }
 
 func (p *Program) Locks() *LockInfo {
+	if p.locks != nil {
+		return p.locks
+	}
 	li := &LockInfo{P: p, Fns: map[*ssa.Function]*FnLocks{}}
+	p.locks = li
 	entry := map[*ssa.Function]LockSet{}
 	for _, fn := range p.Funcs {
 		entry[fn] = LockSet{}
